@@ -159,6 +159,43 @@ def astar(sx, graph, tie, rao, rep, hsel, interleave=False):
     sx.observe('path', [repr(s) for s in res.path])
 
 
+def astar_multigraph(sx, tie, rao, hsel):
+    """parallel edges: several actions of one state lead to the same successor at different (symbolic) costs"""
+    from msdm.algorithms.search import AStarSearch
+    from msdm.core.mdp import QuickMDP
+    sx.float_slack = 1e-13
+    E = {'s': {'p': 'm', 'q': 'm', 'd': 'g'}, 'm': {'r': 'g', 't': 'g', 'back': 's'}, 'g': {}}
+    cost = {(u, a): sx.real(f"c_{u}_{a}", 0, 10) for u in E for a in E[u]}
+    if hsel == 0:
+        h = {u: 0 for u in E}
+    else:
+        h = {'s': sx.real('h_s', 0, 40), 'm': sx.real('h_m', 0, 40), 'g': 0}
+        for (u, a), c_ in cost.items():
+            sx.assume(h[u] <= c_ + h[E[u][a]])
+    with facade(sx, random_only=True):
+        mdp = QuickMDP(next_state=lambda s_, a: E[s_][a], initial_state='s', reward=lambda s_, a, ns: -cost[(s_, a)],
+                       actions=lambda s_: tuple(E[s_]), is_absorbing=lambda s_: s_ == 'g')
+        with sx.must_not_raise('astar-plan'):
+            res = AStarSearch(heuristic_value=lambda s_: -h[s_], seed=7 if (tie == 'random' or rao) else None, randomize_action_order=rao,
+                              tie_breaking_strategy=tie).plan_on(mdp)
+    sx.prove(res is not None, 'plan-exists-when-goal-reachable')
+    if res is None:
+        return
+    path = list(res.path)
+    sx.prove(path[0] == 's' and path[-1] == 'g', 'path-from-start-to-goal')
+    total, ok = 0, True
+    for u, v in zip(path, path[1:]):
+        a = res.policy.action_dist(u).sample()
+        ok = ok and a in E[u] and E[u][a] == v
+        if ok:
+            total = total + cost[(u, a)]
+    sx.prove(ok, 'path-follows-real-transitions-under-policy')
+    sx.prove_eq(res.path_value, total, 'path-value-is-cost-of-the-actions-taken')
+    for k, alt in enumerate([[('s', 'd')], [('s', 'p'), ('m', 'r')], [('s', 'p'), ('m', 't')], [('s', 'q'), ('m', 'r')], [('s', 'q'), ('m', 't')]]):
+        sx.prove_le(res.path_value, ssum(cost[e] for e in alt), f'minimum-cost-vs-route[{k}]')
+    sx.observe('value', res.path_value)
+
+
 def bfs(sx, graph, rao, rep, interleave=False):
     g = graphs('thorough')[graph]
     name, N, E, goals = g
@@ -189,6 +226,10 @@ def jobs(tier):
     o = dict(timeout_ms=30000, budget_s=600, max_paths=20000)
     G = graphs(tier)
     reps = ['next_state', 'det', 'dict1', 'uniform1']
+    for tie in ['lifo', 'fifo', 'random']:
+        for rao in [False, True]:
+            for hsel in [0, 1]:
+                yield ('astar_multigraph', dict(tie=tie, rao=rao, hsel=hsel), o)
     for gi, g in enumerate(G):
         for tie in ['lifo', 'fifo', 'random']:
             for rao in [False, True]:
